@@ -594,6 +594,10 @@ theorem sext8 (x : Nat) (hx : x < 2 ^ 64) : sext 8 x = x := by
   unfold sext Ints.toSigned Leb.ofI64
   split <;> omega
 
+theorem ofI64_toI64 (x : Nat) (hx : x < 2 ^ 64) : Leb.ofI64 (Leb.toI64 x) = x := by
+  unfold Leb.ofI64 Leb.toI64
+  split <;> omega
+
 theorem pev_roundtrip (e : Endian) (enc asz x off : Nat) (bytes rest : Bytes)
     (h : encodeOperand e enc asz x = some bytes) :
     parseEncodedValue e enc asz ⟨off, bytes ++ rest⟩ = .ok (x, ⟨off + bytes.length, rest⟩) := by
@@ -694,7 +698,20 @@ theorem pev_roundtrip (e : Endian) (enc asz x off : Nat) (bytes rest : Bytes)
                     rw [lift_ok _ _ _ _ _ (readFixed_toBytes e 8 x rest (by rw [pow256]; exact hc))]
                     simp only [Out.bind_ok, Out.pure_eq, sext8 x hc]
                   · simp at h
-                · simp at h
+                · -- sleb128: the signed reading of the pattern, through C09's `signed_roundtrip`
+                  split at h
+                  · rename_i hf
+                    split at h
+                    · rename_i hc
+                      simp only [Option.some.injEq] at h
+                      subst h
+                      simp only [hf, show ¬ (9 = 0) by omega, show ¬ (9 = 1) by omega, show ¬ (9 = 2) by omega,
+                        show ¬ (9 = 3) by omega, show ¬ (9 = 4) by omega, if_true, if_false]
+                      obtain ⟨hlo, hhi⟩ := Leb.toI64_range x
+                      rw [lift_ok _ _ _ _ _ (Leb.signed_roundtrip (Leb.toI64 x) hlo hhi rest)]
+                      simp only [Out.bind_ok, Out.pure_eq, ofI64_toI64 x hc]
+                    · simp at h
+                  · simp at h
 
 
 theorem pep_roundtrip (m : Mode) (e : Endian) (enc : Nat) (p : PeParams) (off x b : Nat)
@@ -1501,35 +1518,6 @@ theorem hdrFdeForAddress_normal (c : Cfg) (bases : Bases) (h : Hdr) (frame : Byt
 
 /-! ### entries round trip: building blocks -/
 
-theorem signedLoop_single (b : UInt8) (rest : Bytes) (hb : b.toNat < 128) :
-    Leb.signedLoop (b :: rest) 0 0 = .ok (b.toNat, 7, b, rest) := by
-  rw [Leb.signedLoop]
-  have h1 : ¬ ((0 : Nat) = 63 ∧ b.toNat ≠ 0 ∧ b.toNat ≠ 0x7f) := by omega
-  simp only [h1, if_false, hb, if_true, Nat.shiftLeft_zero, Nat.zero_or, Nat.zero_add]
-  have : b.toNat % 128 % 2 ^ 64 = b.toNat := by omega
-  rw [this]
-
-theorem sleb1_table : ∀ n : Fin 128,
-    Leb.toI64 (if (7 : Nat) < 64 ∧ (n.val / 64) % 2 = 1 then n.val ||| ((2 ^ 64 - 1) <<< 7 % 2 ^ 64) else n.val) =
-      (if n.val < 64 then (n.val : Int) else (n.val : Int) - 128) := by
-  decide +kernel
-
-theorem signed_single (v : Int) (rest : Bytes) (h1 : -64 ≤ v) (h2 : v < 64) :
-    Leb.signed (sleb1 v :: rest) = .ok (v, rest) := by
-  have hb : (sleb1 v).toNat = (v % 128).toNat := by
-    unfold sleb1
-    simp only [UInt8.toNat_ofNat']
-    omega
-  have hlt : (sleb1 v).toNat < 128 := by rw [hb]; omega
-  unfold Leb.signed
-  rw [signedLoop_single _ _ hlt]
-  simp only
-  have := sleb1_table ⟨(sleb1 v).toNat, hlt⟩
-  simp only at this
-  rw [this, hb]
-  congr 2
-  split <;> omega
-
 theorem cstr_append (s t : Bytes) (h : ∀ b, b ∈ s → b ≠ 0) : cstr (s ++ 0 :: t) = some (s, t) := by
   induction s with
   | nil => simp [cstr]
@@ -1723,10 +1711,9 @@ theorem lift_uleb (o v : Nat) (t : Bytes) (hv : v < 2 ^ 64) :
     (⟨o, Leb.encodeU v ++ t⟩ : Rd).lift Leb.unsigned = .ok (v, ⟨o + (Leb.encodeU v).length, t⟩) :=
   lift_ok _ _ _ _ _ (Leb.unsigned_roundtrip v hv t)
 
-theorem lift_sleb1 (o : Nat) (v : Int) (t : Bytes) (h1 : -64 ≤ v) (h2 : v < 64) :
-    (⟨o, sleb1 v :: t⟩ : Rd).lift Leb.signed = .ok (v, ⟨o + 1, t⟩) := by
-  have := lift_ok Leb.signed o [sleb1 v] t v (signed_single v t h1 h2)
-  simpa using this
+theorem lift_sleb (o : Nat) (v : Int) (t : Bytes) (h1 : -(2 : Int) ^ 63 ≤ v) (h2 : v < 2 ^ 63) :
+    (⟨o, Leb.encodeS v ++ t⟩ : Rd).lift Leb.signed = .ok (v, ⟨o + (Leb.encodeS v).length, t⟩) :=
+  lift_ok _ _ _ _ _ (Leb.signed_roundtrip v h1 h2 t)
 
 theorem cieRar_enc (ci : ACie) (o : Nat) (t : Bytes)
     (hrar : if ci.version = 1 then ci.rar < 256 else ci.rar < 2 ^ 16) :
@@ -1804,13 +1791,13 @@ theorem cieFromPrefix_encoded (c : Cfg) (bases : Bases) (ci : ACie) (p : Prefix)
   simp only [Out.bind_ok]
   rw [lift_uleb _ _ _ hcaf]
   simp only [Out.bind_ok]
-  rw [lift_sleb1 _ _ _ hdaf.1 hdaf.2]
+  rw [lift_sleb _ _ _ hdaf.1 hdaf.2]
   simp only [Out.bind_ok]
   rw [cieRar_enc ci _ _ hrar]
   simp only [Out.bind_ok]
   rw [hca]
   have hoff : o + 1 + ci.augString.length + 1 + (if ¬c.eh = true ∧ ci.version = 4 then 2 else 0) +
-      (Leb.encodeU ci.caf).length + 1 + ci.rarBytes.length = ci.afterRar c o := by
+      (Leb.encodeU ci.caf).length + (Leb.encodeS ci.daf).length + ci.rarBytes.length = ci.afterRar c o := by
     unfold ACie.afterRar; omega
   rw [hoff]
   rw [cieAug_enc c bases ci (ci.afterRar c o) o ci.instr hasz hargs hdata (by intro _; rfl) hbase]
@@ -2018,15 +2005,15 @@ theorem size_pos_cie (c : Cfg) (ci : ACie) : 4 ≤ ci.size c.eh c.e := by
 theorem size_pos_fde (c : Cfg) (cie : Cie) (fd : AFde) : 4 ≤ fd.size c.eh c.e cie := by
   unfold AFde.size lsz; cases fd.format <;> simp <;> omega
 
-theorem zero_word (c : Cfg) (bases : Bases) (off : Nat) :
-    parseCfiEntry c bases ⟨off, [0, 0, 0, 0]⟩ = .ok (none, ⟨off + 4, []⟩) := by
+theorem lsz_pos (f : Format) : 4 ≤ lsz f := by cases f <;> simp [lsz]
+
+/-- a zero length field (either format) parses to "no entry", consuming just the field -/
+theorem zero_field (c : Cfg) (bases : Bases) (f : Format) (off : Nat) (rest : Bytes) :
+    parseCfiEntry c bases ⟨off, lengthField c.e f 0 ++ rest⟩ = .ok (none, ⟨off + lsz f, rest⟩) := by
   unfold parseCfiEntry parsePrefix
-  have : readInitialLength c.e 64 [0, 0, 0, 0] = .ok ((0, .dwarf32), []) := by
-    cases c.e <;> decide
-  have hl := lift_ok (readInitialLength c.e 64) off [0, 0, 0, 0] [] (0, Format.dwarf32) (by simpa using this)
-  simp only [List.append_nil] at hl
-  rw [hl]
-  simp
+  have hL : LenOk f 0 := by cases f <;> simp [LenOk]
+  rw [lift_ok _ _ _ _ _ (readInitialLength_lengthField c.e f 0 rest hL)]
+  simp [lengthField_length]
 
 theorem next_some (c : Cfg) (bases : Bases) (k : Nat) (r r' : Rd) (en : Entry)
     (hne : r.bs ≠ []) (h : parseCfiEntry c bases r = .ok (some en, r')) :
@@ -2035,60 +2022,86 @@ theorem next_some (c : Cfg) (bases : Bases) (k : Nat) (r r' : Rd) (en : Entry)
   have : r.bs.isEmpty = false := by cases hb : r.bs <;> simp_all
   simp [this, h]
 
-/-- iterating the encoded entries yields exactly the expected items, then ends -/
-theorem entries_encoded (c : Cfg) (bases : Bases) (term : Bool) :
-    ∀ (es : List AEntry) (off fuel : Nat), es.length < fuel → EntriesWF c bases off es →
-      entries c bases fuel ⟨off, encodeEntries c.eh c.e off es ++ (if term then [0, 0, 0, 0] else [])⟩ =
-        (expectEntries c bases off es, .ok ()) := by
+/-- what `CfiEntriesIter::next` returns on the encoded entries `es` laid out from `off` -/
+def nextSpec (c : Cfg) (bases : Bases) (term : Option Format) : Nat → List AEntry → Option Entry × Rd
+  | off, [] => (none, match term with
+      | none => ⟨off, []⟩
+      | some f => ⟨off + lsz f, []⟩)
+  | off, .zero f :: t => nextSpec c bases term (off + lsz f) t
+  | off, .cie ci :: t => (some (.cie (ci.expect c bases off)),
+      ⟨off + ci.size c.eh c.e, encodeEntries c.eh c.e (off + ci.size c.eh c.e) t ++ terminatorBytes c.e term⟩)
+  | off, .fde k fd :: t => (some (.fde (fd.expectPartial c k off)),
+      ⟨off + fd.size c.eh c.e k, encodeEntries c.eh c.e (off + fd.size c.eh c.e k) t ++ terminatorBytes c.e term⟩)
+
+theorem lengthField_ne_nil (e : Endian) (f : Format) (n : Nat) (rest : Bytes) : lengthField e f n ++ rest ≠ [] := by
+  intro h
+  have := congrArg List.length h
+  have h4 := lsz_pos f
+  simp [lengthField_length] at this
+  omega
+
+theorem next_encoded (c : Cfg) (bases : Bases) (term : Option Format) :
+    ∀ (es : List AEntry) (off k : Nat), es.length + (if term.isSome then 1 else 0) < k →
+      EntriesWF c bases off es →
+      next c bases k ⟨off, encodeEntries c.eh c.e off es ++ terminatorBytes c.e term⟩ =
+        .ok (nextSpec c bases term off es) := by
   intro es
   induction es with
   | nil =>
-    intro off fuel hf _
-    obtain ⟨fuel, rfl⟩ : ∃ k, fuel = k + 1 := ⟨fuel - 1, by omega⟩
-    simp only [encodeEntries, List.nil_append, expectEntries]
-    rw [entries]
+    intro off k hk _
+    obtain ⟨k, rfl⟩ : ∃ k', k = k' + 1 := ⟨k - 1, by omega⟩
+    simp only [encodeEntries, List.nil_append, nextSpec]
     cases term with
-    | false => simp [next]
-    | true =>
-      simp only [if_true, List.length_cons, List.length_nil]
+    | none => simp [terminatorBytes, next]
+    | some f =>
+      simp only [Option.isSome_some, if_true, List.length_nil] at hk
+      obtain ⟨k, rfl⟩ : ∃ k', k = k' + 1 := ⟨k - 1, by omega⟩
+      simp only [terminatorBytes]
       rw [next]
-      simp only [List.isEmpty_cons, Bool.false_eq_true, if_false, zero_word]
+      have hne : (lengthField c.e f 0).isEmpty = false := by
+        have := lengthField_ne_nil c.e f 0 []
+        cases hb : lengthField c.e f 0 <;> simp_all
+      have hz := zero_field c bases f off []
+      simp only [List.append_nil] at hz
+      simp only [hne, Bool.false_eq_true, if_false, hz]
       by_cases heh : c.eh = true
       · simp [heh]
       · simp [heh, next]
   | cons en t ih =>
-    intro off fuel hf hwf
-    obtain ⟨fuel, rfl⟩ : ∃ k, fuel = k + 1 := ⟨fuel - 1, by omega⟩
-    have hft : t.length < fuel := by simp at hf; omega
+    intro off k hk hwf
+    obtain ⟨k, rfl⟩ : ∃ k', k = k' + 1 := ⟨k - 1, by omega⟩
+    have hkt : t.length + (if term.isSome then 1 else 0) < k := by simp at hk; omega
     cases en with
     | cie ci =>
-      obtain ⟨hw, hL, hrest⟩ := hwf
-      simp only [encodeEntries, expectEntries, List.append_assoc]
-      rw [entries]
-      have hne : (⟨off, encodeCie c.eh c.e ci ++ (encodeEntries c.eh c.e (off + ci.size c.eh c.e) t ++
-          (if term then [0, 0, 0, 0] else []))⟩ : Rd).bs ≠ [] := by
-        intro h
+      obtain ⟨hw, hL, _⟩ := hwf
+      simp only [encodeEntries, nextSpec, List.append_assoc]
+      apply next_some
+      · intro h
         have := congrArg List.length h
         have h4 := size_pos_cie c ci
         simp [encodeCie_length] at this
         omega
-      rw [next_some c bases _ _ _ _ hne (parseCfiEntry_cie c bases ci off _ hw hL)]
-      simp only
-      rw [ih _ _ hft hrest]
-    | fde cie fd =>
-      obtain ⟨hw, hrest⟩ := hwf
-      simp only [encodeEntries, expectEntries, List.append_assoc]
-      rw [entries]
-      have hne : (⟨off, encodeFde c.eh c.e cie off fd ++ (encodeEntries c.eh c.e (off + fd.size c.eh c.e cie) t ++
-          (if term then [0, 0, 0, 0] else []))⟩ : Rd).bs ≠ [] := by
-        intro h
+      · exact parseCfiEntry_cie c bases ci off _ hw hL
+    | fde kc fd =>
+      obtain ⟨hw, _⟩ := hwf
+      simp only [encodeEntries, nextSpec, List.append_assoc]
+      apply next_some
+      · intro h
         have := congrArg List.length h
-        have h4 := size_pos_fde c cie fd
+        have h4 := size_pos_fde c kc fd
         simp [encodeFde_length] at this
         omega
-      rw [next_some c bases _ _ _ _ hne (parseCfiEntry_fde c bases cie fd off _ hw)]
-      simp only
-      rw [ih _ _ hft hrest]
+      · exact parseCfiEntry_fde c bases kc fd off _ hw
+    | zero f =>
+      obtain ⟨heh, hrest⟩ := hwf
+      simp only [encodeEntries, nextSpec, List.append_assoc]
+      rw [next]
+      have hne : (lengthField c.e f 0 ++ (encodeEntries c.eh c.e (off + lsz f) t ++ terminatorBytes c.e term)).isEmpty = false := by
+        have := lengthField_ne_nil c.e f 0 (encodeEntries c.eh c.e (off + lsz f) t ++ terminatorBytes c.e term)
+        cases hb : lengthField c.e f 0 ++ (encodeEntries c.eh c.e (off + lsz f) t ++ terminatorBytes c.e term) <;> simp_all
+      simp only [hne, Bool.false_eq_true, if_false, zero_field]
+      rw [if_neg (by simp [heh])]
+      exact ih _ _ hkt hrest
 
 theorem encodeEntries_length (c : Cfg) : ∀ (es : List AEntry) (off : Nat),
     es.length ≤ (encodeEntries c.eh c.e off es).length := by
@@ -2103,12 +2116,62 @@ theorem encodeEntries_length (c : Cfg) : ∀ (es : List AEntry) (off : Nat),
       have h4 := size_pos_cie c ci
       simp only [encodeEntries, List.length_append, List.length_cons, encodeCie_length]
       omega
-    | fde cie fd =>
-      have := ih (off + fd.size c.eh c.e cie)
-      have h4 := size_pos_fde c cie fd
+    | fde k fd =>
+      have := ih (off + fd.size c.eh c.e k)
+      have h4 := size_pos_fde c k fd
       simp only [encodeEntries, List.length_append, List.length_cons, encodeFde_length]
       omega
+    | zero f =>
+      have := ih (off + lsz f)
+      have h4 := lsz_pos f
+      simp only [encodeEntries, List.length_append, List.length_cons, lengthField_length]
+      omega
 
+theorem terminator_fuel (c : Cfg) (term : Option Format) :
+    (if term.isSome then 1 else 0) ≤ (terminatorBytes c.e term).length := by
+  cases term with
+  | none => simp
+  | some f => have := lsz_pos f; simp [terminatorBytes, lengthField_length]; omega
+
+/-- iterating the encoded entries yields exactly the expected items, then ends -/
+theorem entries_encoded (c : Cfg) (bases : Bases) (term : Option Format) :
+    ∀ (es : List AEntry) (off fuel : Nat), es.length < fuel → EntriesWF c bases off es →
+      entries c bases fuel ⟨off, encodeEntries c.eh c.e off es ++ terminatorBytes c.e term⟩ =
+        (expectEntries c bases off es, .ok ()) := by
+  have hnext : ∀ (es : List AEntry) (off : Nat), EntriesWF c bases off es →
+      next c bases ((encodeEntries c.eh c.e off es ++ terminatorBytes c.e term).length + 1)
+        ⟨off, encodeEntries c.eh c.e off es ++ terminatorBytes c.e term⟩ = .ok (nextSpec c bases term off es) := by
+    intro es off hwf
+    apply next_encoded c bases term es off _ _ hwf
+    have h1 := encodeEntries_length c es off
+    have h2 := terminator_fuel c term
+    simp only [List.length_append]
+    omega
+  intro es
+  induction es with
+  | nil =>
+    intro off fuel hf hwf
+    obtain ⟨fuel, rfl⟩ : ∃ k, fuel = k + 1 := ⟨fuel - 1, by omega⟩
+    rw [entries, hnext [] off hwf]
+    simp [nextSpec, expectEntries]
+  | cons en t ih =>
+    intro off fuel hf hwf
+    obtain ⟨fuel, rfl⟩ : ∃ k, fuel = k + 1 := ⟨fuel - 1, by omega⟩
+    have hft : t.length < fuel := by simp at hf; omega
+    rw [entries, hnext _ off hwf]
+    cases en with
+    | cie ci =>
+      simp only [nextSpec, expectEntries]
+      rw [ih _ _ hft hwf.2.2]
+    | fde k fd =>
+      simp only [nextSpec, expectEntries]
+      rw [ih _ _ hft hwf.2]
+    | zero f =>
+      have hrest := hwf.2
+      have := ih (off + lsz f) (fuel + 1) (by omega) hrest
+      rw [entries, hnext t (off + lsz f) hrest] at this
+      simp only [nextSpec, expectEntries]
+      exact this
 
 theorem encodeEntries_split (c : Cfg) (bases : Bases) (ci : ACie) (es2 : List AEntry) :
     ∀ (es1 : List AEntry) (off : Nat),
@@ -2146,9 +2209,18 @@ theorem encodeEntries_split (c : Cfg) (bases : Bases) (ci : ACie) (es2 : List AE
       · intro hw
         have := h3 hw.2
         simpa only [Nat.add_assoc] using this
+    | zero f =>
+      obtain ⟨h1, h2, h3⟩ := ih (off + lsz f)
+      simp only [List.cons_append, encodeEntries, totalSize, AEntry.size, List.append_assoc, List.length_append,
+        lengthField_length, EntriesWF]
+      refine ⟨?_, by omega, ?_⟩
+      · rw [h1]; simp only [Nat.add_assoc]
+      · intro hw
+        have := h3 hw.2
+        simpa only [Nat.add_assoc] using this
 
 /-- the CIE an FDE of the section designates is found by `cie_from_offset` -/
-theorem cieFromOffset_section (c : Cfg) (bases : Bases) (es1 es2 : List AEntry) (ci : ACie) (term : Bool)
+theorem cieFromOffset_section (c : Cfg) (bases : Bases) (es1 es2 : List AEntry) (ci : ACie) (term : Option Format)
     (hwf : EntriesWF c bases 0 (es1 ++ .cie ci :: es2)) :
     cieFromOffset c bases (encodeFrameSection c.eh c.e (es1 ++ .cie ci :: es2) term) (totalSize c.eh c.e es1) =
       .ok (ci.expect c bases (totalSize c.eh c.e es1)) := by
@@ -2157,10 +2229,11 @@ theorem cieFromOffset_section (c : Cfg) (bases : Bases) (es1 es2 : List AEntry) 
   unfold encodeFrameSection
   rw [h1, List.append_assoc, List.append_assoc, ← List.append_assoc (encodeEntries c.eh c.e 0 es1)]
   have := cieFromOffset_encoded c bases ci (encodeEntries c.eh c.e 0 es1)
-    (encodeEntries c.eh c.e (0 + totalSize c.eh c.e es1 + ci.size c.eh c.e) es2 ++ (if term then [0, 0, 0, 0] else []))
+    (encodeEntries c.eh c.e (0 + totalSize c.eh c.e es1 + ci.size c.eh c.e) es2 ++ terminatorBytes c.e term)
     (by rw [h2]; simpa using hw) hL
   rw [h2] at this
   exact this
+
 
 
 theorem parseHdr_encoded (m : Mode) (e : Endian) (bases : Bases) (asz : Nat) (h : AHdr)
